@@ -765,6 +765,7 @@ func main() {
 	runQRBitsMirror()
 	run1DObligations()
 	run1DAsymmetric()
+	runBitmapHistories()
 	run1DHintCombos()
 	runFamily("QR (writer default quiet zone 4)", qrSpecs(), true)
 	runFamily("QR (MARGIN 0: the padding is the only quiet zone)", withMargin(qrSpecs(), 0), true)
@@ -790,6 +791,14 @@ func replay() {
 		return
 	}
 	c.Spec = s
+	if c.Mode == "bitmap-history" {
+		var b bmhCase
+		mc.LoadReplay(chk.ReplayFile(), &b)
+		b.Spec = s
+		fmt.Printf("replay bitmap history %+v\n", b)
+		bmhOne(l, b, base)
+		return
+	}
 	fmt.Printf("replay %v (expect %q)\n", c, s.expect())
 	if c.Mode == "bits-mirror" {
 		bitsMirror(l, c, base)
